@@ -218,7 +218,7 @@ func TestVerifC10(t *testing.T) {
 	}
 
 	// ---- sessions: any-int MTU before traffic ------------------------------------
-	for q := 0; q < env.pickN(128, 3200); q++ {
+	for q := 0; q < env.pickN(128, 1600); q++ {
 		idx := caseIdx
 		caseIdx++
 		if !env.mine(idx) {
